@@ -41,6 +41,10 @@ What is proved for all inputs, and what is not:
 -/
 import PyttbModel.Lemmas.Presentation
 import PyttbModel.Lemmas.PresentationRun
+import PyttbModel.Lemmas.PresentationRelabelWitness
+import PyttbModel.Lemmas.PresentationTuckerWitness
+import PyttbModel.Lemmas.PresentationHosvdWitness
+import PyttbModel.Lemmas.PresentationTuckerRelabel
 namespace Pyttb
 open Pres
 
@@ -468,6 +472,273 @@ theorem C18_relabel_mttkrp_spec [Fintype ι] {κ ρ α : Type} [Fintype κ] [Dec
 
 end relabel
 
+/-! ### relabelling the modes: a whole CP-ALS run
+
+The model is again the one of C09 (`Alg/CpAls.lean`).  `D` is the data object of the first run and denotes the
+array `X` of shape `s`; `D'` is the data object of the second run and denotes `permute X p`: shape
+`gather s p` (mode `k` of the second problem is mode `p[k]` of the first), entries
+`X' j' = X (gather j' (invPerm p))`.  The second run gets the start relabelled (`CpAls.relabelInit`:
+`U'[k] = U[p[k]]`, the drawn matrices of a random start likewise), `dimorder` — with the default made
+explicit — and `optdims` mapped through `invPerm p` (`CpAls.relabelParams`), and a solver that answers the
+request tagged `k` the way the first run's solver answers the request tagged `p[k]`: the solver is a FUNCTION
+of the system it is handed (for a solver that ignores the tag: the same solver).  No contract of the solver, no
+regularity of the coefficient matrices and no "both runs return" is needed: relabelling is an exact symmetry
+of every step.  `CpAls.relabelSt p st` is the state with the per-mode lists (`U`, `UtU`) relabelled;
+`CpAls.relabelK p K` the Kruskal tensor with the factor list relabelled and the same weights;
+`CpAls.qmap p l` the mode list `l` expressed in modes of the second problem. -/
+
+section cpals_relabel
+open CpAls
+set_option linter.unusedSectionVars false
+variable {α : Type} [Field α] [LinearOrder α] [IsStrictOrderedRing α]
+
+/-- The interface law `mttkrp (permute X p) (U ∘ p) k = mttkrp X U p[k]` — the hypothesis of
+`C18_relabel_als_query` — is a consequence of the two `mttkrp` / `innerprod` laws of C02 for `X` and for
+`permute X p` (as an equality of matrices: for data whose `mttkrp` returns matrices of the documented size). -/
+theorem C18_relabel_mttkrp_law {D D' : Data α} {X : List Nat → α} {p : List Nat}
+    (hp : isPermOf p D.shape.length = true) (hD : DataLaws D X)
+    (hD' : DataLaws D' (fun j' => X (gather j' (invPerm p)))) (hs : D'.shape = gather D.shape p)
+    (hm : MttkrpShaped D) (hm' : MttkrpShaped D')
+    {R : Nat} {U : List (Mat α)} (hU : ShapeOK D.shape R U) {k : Nat} (hk : k < D.shape.length) :
+    D'.mttkrp (gatherD U p []) k = D.mttkrp U (p.getD k 0) :=
+  mttkrp_relabel hp hD hD' hs hm hm' hU hk
+
+/-- One mode update of the concrete model: updating mode `k` of the relabelled problem in the relabelled
+state succeeds when updating mode `p[k]` of the original problem does, and gives the relabelled state (same
+`mttkrp` matrix, same coefficient matrix — a product over the other modes, commutative —, same guard, same
+solver answer, same column scale, same weights).  `hlast` says that `k` is the last mode of the second
+sweep exactly when `p[k]` is the last mode of the first. -/
+theorem C18_relabel_cpals_mode_update {D D' : Data α} {S S' : Services α} {o : NumOps α} {p : List Nat}
+    (h : RelabelHyp D D' S S' p) {rank it last last' k : Nat} (hk : k < D.shape.length)
+    (hlast : (k == last') = (p.getD k 0 == last)) {st st1 : State α} (hst : StOK D rank st)
+    (hmu : CpAls.modeUpdate D S o rank it last (p.getD k 0) st = .ok st1) :
+    CpAls.modeUpdate D' S' o rank it last' k (relabelSt p st) = .ok (relabelSt p st1) :=
+  modeUpdate_relabel h hk hlast hst hmu
+
+/-- One pass (the sweep over `dims`, `iprod`, `M.norm()`, `normresidual`, `fit`, the stop test): the pass of
+the second run over the relabelled mode list ends in the relabelled state — in particular with the SAME fit,
+residual, fit change and stop flag (these fields are not touched by `relabelSt`). -/
+theorem C18_relabel_cpals_pass {D D' : Data α} {S S' : Services α} {o : NumOps α} {p : List Nat}
+    (h : RelabelHyp D D' S S' p) {rank it : Nat} {stoptol : α} {dims : List Nat} (hne : dims ≠ [])
+    (hdims : ∀ n ∈ dims, n < D.shape.length) {st st2 : State α} (hst : StOK D rank st)
+    (hi : iterStep D S o rank stoptol dims it st = .ok st2) :
+    iterStep D' S' o rank stoptol (qmap p dims) it (relabelSt p st) = .ok (relabelSt p st2) ∧
+    (relabelSt p st2).fit = st2.fit ∧ (relabelSt p st2).normresidual = st2.normresidual ∧
+    (relabelSt p st2).stop = st2.stop ∧ (relabelSt p st2).weights = st2.weights :=
+  ⟨(iterStep_relabel h hne hdims hst hi).1, rfl, rfl, rfl, rfl⟩
+
+/-- Any number of passes: the second run executes the same number of passes (same stop decisions) and ends
+in the relabelled final state. -/
+theorem C18_relabel_cpals_sweeps {D D' : Data α} {S S' : Services α} {o : NumOps α} {p : List Nat}
+    (h : RelabelHyp D D' S S' p) {rank : Nat} {stoptol : α} {dims : List Nat} (hne : dims ≠ [])
+    (hdims : ∀ n ∈ dims, n < D.shape.length) (fuel k : Nat) {st stF : State α} (hst : StOK D rank st)
+    (hl : loopFrom (iterStep D S o rank stoptol dims) fuel k st = .ok stF) :
+    loopFrom (iterStep D' S' o rank stoptol (qmap p dims)) fuel k (relabelSt p st) = .ok (relabelSt p stF) ∧
+    (relabelSt p stF).iteration = stF.iteration :=
+  ⟨(loop_relabel h hne hdims fuel k hst hl).1, rfl⟩
+
+/-- `arrange()` commutes with the relabelling when no weight is negative (CP-ALS's weights are column
+scales): the column norms are taken factor by factor, the weights collect their product — in a different
+order of multiplication —, the sign step of `normalize()`, which touches factor 0 (a DIFFERENT factor of the
+two problems), does nothing, and both runs sort the same weight vector. -/
+theorem C18_relabel_cpals_arrange {p : List Nat} {N : Nat} (hp : isPermOf p N = true) {o : NumOps α} (ho : o.Lawful)
+    (K : Ktensor α) (hK : K.factors.length = N) (hw : NoNeg K) (hwf : K.WF) :
+    arrange o (relabelK p K) = relabelK p (arrange o K) :=
+  arrange_relabel hp ho K hK hw hwf
+
+/-- `fixsigns()` commutes with the relabelling when, in every component, the number of modes whose dominant
+entry is negative is even or at most one (`ParityOK`): then the flipped set is all of them / none of them,
+whatever the mode order. -/
+theorem C18_relabel_cpals_fixsigns {p : List Nat} {N : Nat} (hp : isPermOf p N = true) (o : NumOps α) (K : Ktensor α)
+    (hK : K.factors.length = N) (hpar : ParityOK o K) :
+    fixsigns o (relabelK p K) = relabelK p (fixsigns o K) :=
+  fixsigns_relabel hp o K hK hpar
+
+/-- …and NOT otherwise (finding F18-fixsigns-relabel): with three modes whose dominant entries are all
+negative `fixsigns()` flips "the first two" — modes 0, 1 of the model, but modes `p[0] = 2`, `p[1] = 0` of
+its relabelling by `p = [2, 0, 1]`.  Explicit instance over ℚ: the two results are not relabellings of each
+other (they denote the same array: `C18_scale_cpals_cleanup`). -/
+theorem C18_relabel_cpals_fixsigns_counterexample :
+    fixsigns ratOps (relabelK [2, 0, 1] negK) ≠ relabelK [2, 0, 1] (fixsigns ratOps negK) ∧
+    (fixsigns ratOps negK).factors = [[[1]], [[3], [4]], [[-4], [-3]]] ∧
+    (fixsigns ratOps (relabelK [2, 0, 1] negK)).factors = [[[4], [3]], [[1]], [[-3], [-4]]] ∧
+    (negModes ratOps negK 0).length = 3 :=
+  relabel_fixsigns_counterexample
+
+/-- **Whole-run mode relabelling of CP-ALS.**  If `run D S o P init` (data `X`) returns `out`, then the run on
+`permute X p` with the start, `dimorder` and `optdims` relabelled RETURNS too, and its output `out'` satisfies:
+the same `iters` (same stop decision after every pass), the same `fit` and `normresidual` — whether kept from
+the last pass or recomputed from the cleaned-up model (`printitn > 0`) —, `dimorder` / `optdims` / `init` of
+the output relabelled, the same weights, and the returned model TENSOR is the relabelled tensor
+(`out'.M.get j' = out.M.get (gather j' (invPerm p))`).  At the level of the factor LISTS: there is one
+Kruskal tensor `M1` (the arranged model of the first run) such that `out.M` is `M1` resp. `fixsigns M1` and
+`out'.M` is `relabelK p M1` resp. `fixsigns (relabelK p M1)`; hence `out'.M = relabelK p out.M` — factor list
+permuted, weights equal — when `fixsigns` is off, and also when it is on and `M1` satisfies the parity
+condition.  Without it the factor lists can differ in sign
+(`C18_relabel_cpals_fixsigns_counterexample`).
+Hypotheses: a lawful number system; `p` a permutation of the modes; the data laws of C02 for `X` and
+`permute X p`, whose `mttkrp` return matrices of the documented size; the same `norm()`; the solver a function
+of the system (`hsolve`); for `init = "nvecs"` the relabelled `nvecs`; a well-shaped random / nvecs start. -/
+theorem C18_relabel_cpals_run {D D' : Data α} {S S' : Services α} {o : NumOps α} {X : List Nat → α} {p : List Nat}
+    (ho : o.Lawful) (hp : isPermOf p D.shape.length = true) (hD : DataLaws D X)
+    (hD' : DataLaws D' (fun j' => X (gather j' (invPerm p)))) (hs : D'.shape = gather D.shape p)
+    (hnorm : D'.norm = D.norm) (hm : MttkrpShaped D) (hm' : MttkrpShaped D')
+    (hsolve : ∀ k < D.shape.length, ∀ Y B, S'.solve k Y B = S.solve (p.getD k 0) Y B)
+    {P : Params α} {init : Init α}
+    (hnv : init = .nvecs → D'.nvecs = D.nvecs.map fun f k r => f (p.getD k 0) r)
+    (hi : InitOK D P.rank init) {out : Output α} (hrun : run D S o P init = .ok out) :
+    ∃ out' : Output α, run D' S' o (relabelParams p D.shape.length P) (relabelInit p init) = .ok out' ∧
+      out'.iters = out.iters ∧ out'.fit = out.fit ∧ out'.normresidual = out.normresidual ∧
+      out'.dimorder = qmap p out.dimorder ∧ out'.optdims = relabelOd p P.optdims out.optdims ∧
+      out'.init = relabelK p out.init ∧ out'.M.weights = out.M.weights ∧
+      (∀ j', j'.length = D.shape.length → out'.M.get j' = out.M.get (gather j' (invPerm p))) ∧
+      ∃ M1 : Ktensor α, M1.factors.length = D.shape.length ∧
+        out.M = (if P.fixsigns then fixsigns o M1 else M1) ∧
+        out'.M = (if P.fixsigns then fixsigns o (relabelK p M1) else relabelK p M1) ∧
+        (P.fixsigns = false ∨ ParityOK o M1 → out'.M = relabelK p out.M) :=
+  run_relabel ho (relabelHyp_of_laws hp hD hD' hs hnorm hm hm' hsolve) hD hD' hnv hi hrun
+
+end cpals_relabel
+
+/-! ### scaling the data by c > 0: a whole Tucker-ALS run
+
+The model is the one of C10 (`Alg/TuckerAls.lean`: `sweepStep`, `sweep`, `iterate`, `tuckerAlsRun`, scalar
+formulas generated from the source), executed over ℝ (`Tk.realOps`).  `Tk.dscale c X` is `c • X`.
+`tensor.nvecs` is a service `nvecs k W n r` (call number, tensor, mode, rank).  Its contract `Tk.NvecsSpec`
+says nothing about scaling: *whenever the Gram matrix `Z` of the requested unfolding has an `m × r` matrix of
+leading eigenvectors in the sense of `Tk.LeadSpec` (orthonormal columns; column `i` an eigenvector for `μ i`;
+`μ` decreasing; every eigenvalue with an eigenvector orthogonal to the columns is `≤` every `μ i`; in every
+column an entry of largest magnitude is positive — `flipsign`), the answer is one*.  That `LeadSpec Z m r A`
+and `LeadSpec (t • Z) m r A` are equivalent for `t > 0` is a theorem (`C18_scale_tucker_nvecs_spec`), so where
+the contract has exactly one admissible answer (`∃! A, LeadSpec …` — the generic case of distinct leading
+eigenvalues; `Tk.DetRun` says this of every request of the FIRST run) the service must give the same matrix
+for `W` and for `c • W` (`C18_scale_tucker_nvecs`): the equality of the factor matrices is a consequence. -/
+
+section tucker_run
+open Tk
+
+/-- Leading eigenvectors (in the sense of the contract) of `Z` and of `t • Z`, `t > 0`, are the same matrices. -/
+theorem C18_scale_tucker_nvecs_spec {Z : Mat ℝ} {m r : Nat} {A : Mat ℝ} {t : ℝ} (ht : 0 < t) :
+    LeadSpec (mscale t Z) m r A ↔ LeadSpec Z m r A :=
+  leadSpec_scale_iff ht
+
+/-- A service that satisfies the contract answers the request about `c • W` like the request about `W`
+wherever the contract determines the answer: the Gram matrix of the unfolding of `c • W` is `c²` times that of
+`W` (`gramMode_dscale`), both answers are leading-eigenvector matrices of the SAME matrix, and there is only one. -/
+theorem C18_scale_tucker_nvecs {nvecs : Nat → Dense ℝ → Nat → Nat → Mat ℝ} (hC : NvecsSpec nvecs) {c : ℝ}
+    (hc : 0 < c) (k : Nat) (W : Dense ℝ) (n r : Nat)
+    (hdet : ∃! A, LeadSpec (gramMode W n) (W.shape.getD n 0) r A) :
+    nvecs k (dscale c W) n r = nvecs k W n r :=
+  nvecs_dscale hC hc k W n r hdet
+
+/-- One pass of `for n in dimorder` + the core: same factors, the core scaled by `c`, same number of service
+calls — and the second sweep fails exactly when the first does. -/
+theorem C18_scale_tucker_sweep {nvecs : Nat → Dense ℝ → Nat → Nat → Mat ℝ} (hC : NvecsSpec nvecs) {c : ℝ}
+    (hc : 0 < c) (X : Dense ℝ) (rank order : List Nat) (U : List (Mat ℝ)) (calls : Nat)
+    (hdet : DetSweep nvecs X rank order ⟨U, none, calls⟩) :
+    sweep nvecs (dscale c X) rank order U calls =
+      (sweep nvecs X rank order U calls).map fun t => (t.1, dscale c t.2.1, t.2.2) :=
+  sweep_dscale hC hc X rank order U calls hdet
+
+/-- **Whole-run scale equivariance of Tucker-ALS.**  For `c > 0`, the same start, options and services, the
+run on `c • X` is the run on `X` with every core and every residual norm multiplied by `c`:
+`tuckerAlsRun … (c • X) … = (tuckerAlsRun … X …).map (scaleOut c, recs.map (scaleRec c))` — an equality of
+results, so the second run rejects exactly when the first does, executes the same number of passes (the list
+of executed passes has the same length: same stop iteration), has in every pass the SAME factor matrices, the
+core scaled by `c`, the same `fit` and `fitchange`, and returns the same factors, the core scaled by `c`, the
+same `uinit`, `iters`, `fit` and `c ·` the residual norm.
+Hypotheses: the contract of `nvecs`; `c > 0`; every request of the first run has exactly one admissible answer
+(`DetRun`; automatic when all modes have extent one, `Tk.detRun11`); for `init = "nvecs"` (only) the two
+starts — answers of the service about the data itself — coincide (`InitScaleOK`). -/
+theorem C18_scale_tucker_run {nvecs : Nat → Dense ℝ → Nat → Nat → Mat ℝ} (hC : NvecsSpec nvecs)
+    (uniform : Nat → Nat → Nat → Mat ℝ) {c : ℝ} (hc : 0 < c) (X : Dense ℝ) (rank : List Nat) (stoptol : ℝ)
+    (maxiters : Int) (dimorder : Option (List Nat)) (init : Tk.Init ℝ) (hinit : InitScaleOK nvecs c X init)
+    (hdet : DetRun nvecs uniform X rank maxiters dimorder init) :
+    tuckerAlsRun realOps nvecs uniform (dscale c X) rank stoptol maxiters dimorder init =
+      (tuckerAlsRun realOps nvecs uniform X rank stoptol maxiters dimorder init).map
+        fun t => (scaleOut c t.1, t.2.map (scaleRec c)) :=
+  run_dscale hC uniform hc X rank stoptol maxiters dimorder init hinit hdet
+
+/-- The same, read off for a run that returns: the run on `c • X` returns; same `iters`, same `fit`, residual
+norm times `c`, the same factor matrices, the core times `c`, and pass by pass the same factors / fits. -/
+theorem C18_scale_tucker_run_ok {nvecs : Nat → Dense ℝ → Nat → Nat → Mat ℝ} (hC : NvecsSpec nvecs)
+    (uniform : Nat → Nat → Nat → Mat ℝ) {c : ℝ} (hc : 0 < c) (X : Dense ℝ) (rank : List Nat) (stoptol : ℝ)
+    (maxiters : Int) (dimorder : Option (List Nat)) (init : Tk.Init ℝ) (hinit : InitScaleOK nvecs c X init)
+    (hdet : DetRun nvecs uniform X rank maxiters dimorder init) {out : TaOut ℝ} {recs : List (IterRec ℝ)}
+    (h : tuckerAlsRun realOps nvecs uniform X rank stoptol maxiters dimorder init = .ok (out, recs)) :
+    ∃ out' recs', tuckerAlsRun realOps nvecs uniform (dscale c X) rank stoptol maxiters dimorder init = .ok (out', recs') ∧
+      out'.iters = out.iters ∧ out'.fit = out.fit ∧ out'.normresidual = c * out.normresidual ∧
+      out'.solution.factors = out.solution.factors ∧ out'.solution.core = dscale c out.solution.core ∧
+      out'.uinit = out.uinit ∧ recs'.length = recs.length ∧
+      recs'.map (·.factors) = recs.map (·.factors) ∧ recs'.map (·.fit) = recs.map (·.fit) := by
+  refine ⟨scaleOut c out, recs.map (scaleRec c), ?_, rfl, rfl, rfl, rfl, rfl, rfl, by simp, ?_, ?_⟩
+  · rw [C18_scale_tucker_run hC uniform hc X rank stoptol maxiters dimorder init hinit hdet, h]; rfl
+  · simp [List.map_map, Function.comp_def, scaleRec]
+  · simp [List.map_map, Function.comp_def, scaleRec]
+
+end tucker_run
+
+/-! ### relabelling the modes: HOSVD
+
+The model is the one of C10 (`Alg/Hosvd.lean`: `hosvdStep`, `hosvdRun`), over ℝ.  `Tk.permuteD p X` is
+`X.permute(p)` by its entry-wise meaning (shape `gather X.shape p`, entry `j'` = entry `gather j' (invPerm p)` of
+`X`).  `scipy.linalg.eigh` is the service `eigh c Z` (call number, matrix) and NOTHING is assumed about it. -/
+
+section hosvd_relabel
+open Tk CpAls
+
+/-- The mode product and the Gram matrix of an unfolding under relabelling: multiplying mode `k` of the
+relabelled array is multiplying mode `p[k]` of the array, and the Gram matrix of the mode-`k` unfolding of the
+relabelled array IS (entry by entry, the sum over the other subscripts taken in another order) the Gram matrix
+of the mode-`p[k]` unfolding of the array. -/
+theorem C18_relabel_hosvd_step {p : List Nat} (Y : Dense ℝ) (hp : isPermOf p Y.shape.length = true) (U : Mat ℝ)
+    {k : Nat} (hk : k < Y.shape.length) (tr : Bool) :
+    ttmT (permuteD p Y) U k tr = permuteD p (ttmT Y U (p.getD k 0) tr) ∧
+    gramMode (permuteD p Y) k = gramMode Y (p.getD k 0) :=
+  ⟨ttmT_permuteD Y hp U hk tr, gramMode_permuteD Y hp hk⟩
+
+/-- **Mode relabelling of HOSVD**, sequential and not.  If `hosvd` on `X` returns the Tucker tensor `T` (and the
+per-mode records `trace`), then `hosvd` on `X.permute(p)` with the requested ranks relabelled (`gather ranks p`;
+automatic ranks stay automatic) and `dimorder` — the default made explicit — mapped through `invPerm p`
+RETURNS `relabelT p T`: the factor list relabelled (`factors'[k] = factors[p[k]]`) and the core permuted
+(`permuteD p T.core`), with the same per-mode records (same Gram matrices, same eigenvalues in the same order,
+same chosen ranks — automatic or given —, same factors), only the mode numbers relabelled.  The threshold
+`tol²‖X‖²/d` is the same number (`‖X.permute(p)‖ = ‖X‖`); the `c`-th call of `eigh` gets the same matrix in
+both runs.  In the non-sequential variant the core is the product with ALL factors in increasing mode order — a
+different order for the two runs; products in distinct modes commute. -/
+theorem C18_relabel_hosvd {p : List Nat} (eigh : Nat → Mat ℝ → List ℝ × Mat ℝ) (X : Dense ℝ) (hX : X.WF)
+    (hp : isPermOf p X.shape.length = true) (tol : ℝ) (dimorder : Option (List Nat)) (sequential : Bool)
+    (ranks : Option (List Nat)) {T : Ttensor ℝ} {trace : List (ModeRec ℝ)}
+    (h : hosvdRun realOps eigh X tol dimorder sequential ranks = .ok (T, trace)) :
+    hosvdRun realOps eigh (permuteD p X) tol (some (qmap p (modeOrder dimorder X.shape.length))) sequential
+        (ranks.map fun r => gather r p) =
+      .ok (relabelT p T, trace.map (relabelRec p)) :=
+  hosvdRun_relabel eigh X hX hp tol dimorder sequential ranks h
+
+/-- **Whole-run mode relabelling of Tucker-ALS.**  If `tucker_als` on `X` returns `out` (with the executed passes
+`recs`), then `tucker_als` on `X.permute(p)` with the rank vector relabelled (`gather ranks p`, a scalar rank expanded
+first), the start relabelled (`relabelTInit`: a given list gathered by `p`; `"random"` draws the same matrices, for
+the relabelled modes) and `dimorder` — default made explicit — mapped through `invPerm p` RETURNS `relabelOut p out`:
+factor list relabelled, core permuted, `uinit` relabelled, the same `iters`, `fit` and `normresidual`; pass by pass
+(`relabelIter`) the same fit, residual and fit change (hence the same stop iteration), the factors relabelled and the
+core permuted.  The projection on all factors but one multiplies the other modes in increasing order — a different
+order for the two problems (products in distinct modes commute); the Gram matrix `nvecs` is asked about for mode
+`invPerm p [n]` of the second problem IS the one for mode `n` of the first, so under the contract `NvecsSpec` and the
+determinacy hypothesis `DetRun` about the first run (as for `C18_scale_tucker_run`) the answers coincide
+(`Tk.nvecs_relabel`).  For `init = "nvecs"` (only) the relation of the two starts is a hypothesis. -/
+theorem C18_relabel_tucker_run {nvecs : Nat → Dense ℝ → Nat → Nat → Mat ℝ} (hC : NvecsSpec nvecs)
+    (uniform : Nat → Nat → Nat → Mat ℝ) {p : List Nat} (X : Dense ℝ) (hX : X.WF)
+    (hp : isPermOf p X.shape.length = true) (rank : List Nat) (stoptol : ℝ) (maxiters : Int)
+    (dimorder : Option (List Nat)) (init : Tk.Init ℝ) (hinit : InitRelabelOK nvecs p X init)
+    (hdet : DetRun nvecs uniform X rank maxiters dimorder init) {out : TaOut ℝ} {recs : List (IterRec ℝ)}
+    (h : tuckerAlsRun realOps nvecs uniform X rank stoptol maxiters dimorder init = .ok (out, recs)) :
+    tuckerAlsRun realOps nvecs uniform (permuteD p X) (gather (parseRank rank X.shape.length) p) stoptol maxiters
+        (some (qmap p (modeOrder dimorder X.shape.length))) (relabelTInit p init) =
+      .ok (relabelOut p out, recs.map (relabelIter p)) :=
+  tuckerAlsRun_relabel hC uniform X hX hp rank stoptol maxiters dimorder init hinit hdet h
+
+end hosvd_relabel
+
 /-! ### the hypotheses are satisfiable / the models compute something -/
 
 -- the stream fills matrices row by row, in call order, and reports what is left
@@ -508,6 +779,70 @@ example : ∃ out out' : CpAls.Output ℝ,
   obtain ⟨r1, r2, r3, r4, _⟩ :=
     C18_scale_cpals_run CpAls.realNumOps_lawful hS (by norm_num) hD hD' hs hnorm hnz hnv hi hreg h h'
   exact ⟨out, out', h, h', r1, r2, r3, r4 [0, 0] rfl⟩
+-- whole-run relabelling of CP-ALS, all hypotheses of `C18_relabel_cpals_run` at once on a concrete instance:
+-- ℝ with `Real.sqrt`; data = the 2 × 1 array [[3], [4]] behind the interface `CpAls.data21` and its transpose
+-- [[3, 4]] behind `CpAls.data12` (both satisfy the laws, proved entry by entry), p = [1, 0]; rank 1, two passes,
+-- dimorder [1, 0] (so the second run sweeps [0, 1]), start all ones, report recomputed, `fixsigns`; the 1 × 1
+-- solver.  The first run returns, hence the second does, with the same `iters` / `fit` and the transposed tensor.
+example : ∃ out out' : CpAls.Output ℝ,
+    CpAls.run (CpAls.data21 3 4 5) CpAls.solve1 CpAls.realNumOps CpAls.params21 (.given CpAls.start21) = .ok out ∧
+    CpAls.run (CpAls.data12 3 4 5) CpAls.solve1 CpAls.realNumOps
+      (CpAls.relabelParams [1, 0] 2 CpAls.params21) (.given (CpAls.relabelK [1, 0] CpAls.start21)) = .ok out' ∧
+    out'.iters = out.iters ∧ out'.fit = out.fit ∧ out'.dimorder = [0, 1] ∧ out'.M.weights = out.M.weights ∧
+    out'.M.get [0, 1] = out.M.get [1, 0] := by
+  obtain ⟨out, hH, hD, hD', hi, h⟩ := CpAls.instance21 CpAls.realNumOps_lawful (3 : ℝ) 4 5
+  obtain ⟨out', h', r1, r2, _, r4, _, _, r7, r8, _⟩ :=
+    CpAls.run_relabel CpAls.realNumOps_lawful hH hD hD' (fun hn => by cases hn) hi h
+  refine ⟨out, out', h, h', r1, r2, ?_, r7, r8 [0, 1] rfl⟩
+  rw [r4]
+  obtain ⟨di, od, dims, K, st, hsu, _, _, rfl⟩ := CpAls.run_ok h
+  rw [CpAls.setup21] at hsu
+  cases hsu
+  show CpAls.qmap [1, 0] [1, 0] = [0, 1]
+  decide
+-- the parity condition of `C18_relabel_cpals_fixsigns` is satisfiable by a model with negative columns
+-- (two negative modes: both are flipped, in any mode order), and fails for the counterexample
+example : CpAls.ParityOK CpAls.ratOps ⟨[2], [[[-1]], [[3], [4]], [[-4], [-3]]]⟩ ∧ ¬ CpAls.ParityOK CpAls.ratOps CpAls.negK := by
+  unfold CpAls.ParityOK
+  decide
+-- whole-run scaling of Tucker-ALS, all hypotheses of `C18_scale_tucker_run` at once: the service `Tk.svc1` satisfies
+-- the contract (it answers [[1]] for a mode of extent one, otherwise — by choice — some matrix of leading eigenvectors
+-- when there is one); data = the 1 × 1 array [[2]] and 3 · [[2]]; ranks [1, 1], second mode first, given start; every
+-- request has exactly one admissible answer; the first run returns, hence the second: same factors, core times 3.
+example : ∃ out recs out' recs',
+    Tk.tuckerAlsRun Tk.realOps Tk.svc1 (fun _ _ _ => []) Tk.X11 [1, 1] 0 1 (some [1, 0]) (.list [[[1]], [[1]]]) = .ok (out, recs) ∧
+    Tk.tuckerAlsRun Tk.realOps Tk.svc1 (fun _ _ _ => []) (Tk.dscale 3 Tk.X11) [1, 1] 0 1 (some [1, 0]) (.list [[[1]], [[1]]])
+      = .ok (out', recs') ∧
+    out'.fit = out.fit ∧ out'.iters = out.iters ∧ out'.solution.factors = out.solution.factors ∧
+    out'.solution.core = Tk.dscale 3 out.solution.core := by
+  obtain ⟨⟨out, recs⟩, h⟩ := Tk.run11_ok
+  obtain ⟨out', recs', h', r1, r2, _, r4, r5, _⟩ :=
+    C18_scale_tucker_run_ok Tk.svc1_spec (fun _ _ _ => []) (c := 3) (by norm_num) Tk.X11 [1, 1] 0 1 (some [1, 0])
+      (.list [[[1]], [[1]]]) trivial (Tk.detRun11 _ _ _ _ _) h
+  exact ⟨out, recs, out', recs', h, h', r2, r1, r4, r5⟩
+-- the determinacy hypothesis of the Tucker-ALS theorems (`∃! A, LeadSpec …`) is not confined to modes of extent one: for
+-- the 2 × 1 array [[3], [4]] the Gram matrix of the mode-0 unfolding is [[9, 12], [12, 16]] (eigenvalues 25 and 0), and
+-- the contract has exactly one admissible answer for one leading vector, [[3/5], [4/5]]
+example : ∃! A, Tk.LeadSpec (Tk.gramMode ⟨[2, 1], [3, 4]⟩ 0) 2 1 A := by
+  rw [Tk.gramMode_34]; exact Tk.leadSpec_34_existsUnique
+-- relabelling of HOSVD on a concrete instance, both variants: the 2 × 1 array [[3], [4]], p = [1, 0], ranks [1, 1],
+-- second mode first, and a service `Tk.eighE1` that is not even an eigen-solver (nothing is assumed about `eigh`).
+-- The run returns; hence the run on the transposed array with dimorder [0, 1] returns the relabelled Tucker tensor.
+example (seq : Bool) : ∃ T trace,
+    Tk.hosvdRun Tk.realOps Tk.eighE1 Tk.X21 0 (some [1, 0]) seq (some [1, 1]) = .ok (T, trace) ∧
+    Tk.hosvdRun Tk.realOps Tk.eighE1 (Tk.permuteD [1, 0] Tk.X21) 0 (some [0, 1]) seq (some [1, 1]) =
+      .ok (Tk.relabelT [1, 0] T, trace.map (Tk.relabelRec [1, 0])) := by
+  obtain ⟨⟨T, trace⟩, h⟩ := Tk.hosvd21_ok seq
+  exact ⟨T, trace, h, C18_relabel_hosvd (p := [1, 0]) Tk.eighE1 Tk.X21 Tk.X21_WF (by decide) 0 (some [1, 0]) seq (some [1, 1]) h⟩
+-- relabelling of Tucker-ALS, all hypotheses of `C18_relabel_tucker_run` on the instance of the scaling example (service
+-- `Tk.svc1` satisfying the contract, the 1 × 1 array [[2]], ranks [1, 1], given start, determinacy), p = [1, 0]
+example : ∃ out recs,
+    Tk.tuckerAlsRun Tk.realOps Tk.svc1 (fun _ _ _ => []) Tk.X11 [1, 1] 0 1 (some [1, 0]) (.list [[[1]], [[1]]]) = .ok (out, recs) ∧
+    Tk.tuckerAlsRun Tk.realOps Tk.svc1 (fun _ _ _ => []) (Tk.permuteD [1, 0] Tk.X11) [1, 1] 0 1 (some [0, 1])
+      (.list [[[1]], [[1]]]) = .ok (Tk.relabelOut [1, 0] out, recs.map (Tk.relabelIter [1, 0])) := by
+  obtain ⟨⟨out, recs⟩, h⟩ := Tk.run11_ok
+  exact ⟨out, recs, h, C18_relabel_tucker_run (p := [1, 0]) Tk.svc1_spec (fun _ _ _ => []) Tk.X11
+    (show ([2] : List ℝ).length = numel [1, 1] by decide) (by decide) [1, 1] 0 1 (some [1, 0]) (.list [[[1]], [[1]]]) trivial (Tk.detRun11 _ _ _ _ _) h⟩
 -- the MU fix-up acts exactly on the (near-)zero entries with a positive multiplier, never in the first iteration
 example : muFixupIf 1 (1 : Int) 1 [[1, 0], [2, 3]] [[0, 0], [5, 0]] = [[1, 0], [5, 1]] ∧
     muFixupIf 0 (1 : Int) 1 [[1, 0], [2, 3]] [[0, 0], [5, 0]] = [[0, 0], [5, 0]] ∧
